@@ -183,8 +183,8 @@ func main() {
 	opts := GenOpts{Prop: *prop, Thorough: *tier == "thorough"}
 	scenarioFor := func(idx uint64) (*Scenario, uint64, bool) {
 		rs := simrt.Mix(*seed, pn, idx)
-		if idx%4 == 3 {
-			return GenerateSweep(idx/4, rs, opts), rs, true
+		if simrt.Mix(idx, 77)%4 == 3 { // a quarter of the runs, spread over all workers, enumerate the small-scope sweep
+			return GenerateSweep(idx, rs, opts), rs, true
 		}
 		return Generate(rs, opts), rs, false
 	}
@@ -520,8 +520,8 @@ func doBatchReplay(path string, rf *ReplayFile) int {
 		}
 		rs := simrt.Mix(b.Seed, propNum[b.Prop], idx)
 		var sc *Scenario
-		if idx%4 == 3 {
-			sc = GenerateSweep(idx/4, rs, opts)
+		if simrt.Mix(idx, 77)%4 == 3 {
+			sc = GenerateSweep(idx, rs, opts)
 		} else {
 			sc = Generate(rs, opts)
 		}
